@@ -39,6 +39,9 @@ type FS struct {
 	Dir      string
 	Entries  map[string]*Inode
 	DirDirty bool
+	// Durable: the directory's entries as of the last successful fsync of the directory
+	// (what survives a power loss; file contents are not part of this model)
+	Durable  map[string]*Inode
 	Steps    int // every call
 	MutSteps int // mutating calls
 	FailAt   int // index into Steps, -1 = none
@@ -367,9 +370,29 @@ func FileSync(f *os.File) error {
 		return perr("sync", h.name, syscall.EIO)
 	}
 	if h.isDir {
-		fs.DirDirty = false
+		fs.MarkDurable()
 	}
 	return nil
+}
+
+// MarkDurable: every directory update made so far is on disk.
+func (fs *FS) MarkDurable() {
+	fs.Durable = map[string]*Inode{}
+	for k, v := range fs.Entries {
+		fs.Durable[k] = v
+	}
+	fs.DirDirty = false
+}
+
+// PowerLoss: the machine dies; the directory is what the last successful fsync of it
+// made durable, and a new process starts.
+func (fs *FS) PowerLoss() {
+	fs.Entries = map[string]*Inode{}
+	for k, v := range fs.Durable {
+		fs.Entries[k] = v
+	}
+	fs.DirDirty = false
+	fs.Revive()
 }
 
 func FileName(f *os.File) string {
